@@ -1101,7 +1101,9 @@ class Process(StateMachine, persistence.Savable, metaclass=ProcessStateMachineMe
         if self._closed:
             return
 
-        call_with_super_check(self.on_close)
+        # The ``on_close`` hook and the registered cleanups are code of this process
+        with self._process_scope():
+            call_with_super_check(self.on_close)
 
     # region State related methods
 
